@@ -142,6 +142,37 @@ Definition step (st : state) (o : op) : state * outcome :=
       (st, if (two64 <=? off + size) || (flen <? off + size) then Err else Ok off size)
   end.
 
+(* ---- a source that can fail a read once (a transient I/O error) ----
+   cache.rs reads from the source before it registers anything (`self.source.read_bytes_into(..)?` precedes `insert_buffer_range`), so the call
+   that meets the failure returns Err and leaves the cache as it was. *)
+Definition reaches_source (st : state) (o : op) : bool :=
+  match o with
+  | ReadAt off size =>
+      if (size =? 0) || (two64 <=? off + size) || (flen <? off + size) then false
+      else match determine st off (off + size) with NeedRead rs re => negb (re <? rs) | _ => false end
+  | ReadUntil s e d =>
+      if (e <? s) || (flen <? e) then false
+      else match scache_get (scache st) s d with
+           | Some _ => false
+           | None => let max_len := N.min (e - s) maxlen in
+                     if max_len =? 0 then false
+                     else match determine st s (s + max_len) with NeedRead rs re => negb (re <? rs) | _ => false end
+           end
+  | ReadInto _ _ => true
+  end.
+
+(* fail = the source will fail its next read; the result says whether this call met that failure *)
+Definition step_f (st : state) (fail : bool) (o : op) : state * outcome * bool * bool (* new fail flag *) :=
+  if fail && reaches_source st o then (st, Err, true, false)
+  else let '(st', out) := step st o in (st', out, false, fail).
+
+(* events: (inject, call) - inject = a failure of the next source read is armed just before the call *)
+Fixpoint run_f (st : state) (fail : bool) (evs : list (bool * op)) : list (outcome * bool) :=
+  match evs with
+  | [] => []
+  | (x, o) :: r => let '(st', out, met, fail') := step_f st (fail || x) o in (out, met) :: run_f st' fail' r
+  end.
+
 Fixpoint run (st : state) (ops : list op) : list outcome :=
   match ops with
   | [] => []
